@@ -223,6 +223,13 @@ def mutate(sx, cname, slot, shape="full"):
                 w2 = m2.marshal()
                 m3 = cls.parse(w2)
                 sx.check(msglib.deep_eq(sx, m3.marshal(), w2), "accepted-message-re-marshals-stably", info=info)
+                if kind == "pos" and where not in dpos[:1]:
+                    # (the options / details dictionary is exempt: unknown keys are ignored by design and do not come back)
+                    # equivalent to the input: the accepted value is still there (an empty container / null at a trailing position may be left off)
+                    present = len(w2) > where and bool(msglib.deep_eq(sx, w2[where], v))
+                    dropped_empty = len(w2) <= where and (v is None or (isinstance(v, (list, dict)) and len(v) == 0))
+                    sx.check(present or dropped_empty, "accepted-value-survives-re-marshalling(equivalent-to-the-input)", info=dict(info, remarshalled=repr(w2)[:120]),
+                             known=[(_kid(cname, kind, where), True)])
             except Exception as e:  # noqa
                 sx.fail("accepted-message-cannot-be-re-marshalled", info=dict(info, exc=repr(e)[:160]), known=[(_kid(cname, kind, where), True)])
             if kind == "len+1":
